@@ -1,8 +1,8 @@
 SPECIFICATION Spec
-CONSTANTS MaxLen = 3
+CONSTANTS Lens = {1, 2, 3}
   Sizes = {64, 80}
   Pkts <- LinkPkts
   Filters <- LinkFilters
-  CutAll = TRUE
+  CutMode = "all"
 INVARIANTS ChainExact PrefixKept Emit
 CHECK_DEADLOCK FALSE
